@@ -1,7 +1,7 @@
 """C02 - reported total mass equals the true integral; densities integrate to one."""
 import numpy as np
 
-from .. import build, core, gen
+from .. import build, core, gen, repotests
 from .. import oracles as orc
 from ..gen import J, JI
 
@@ -72,6 +72,7 @@ def cells(tier, seed):
                 out.append({"part": "approx", "ak": ak, "Dx": Dx, "Dy": Dy, "Dk": Dk, "Da": Da_,
                             "Rx": Rx, "reps": reps, "group": ["approx", ak, Dx, Dy, Dk, Da_],
                             "cost": 3.0})
+    out += repotests.cells(tier)
     return out
 
 
@@ -400,6 +401,8 @@ def run_approx(cell, rec, seed):
 
 
 def run_cell(cell, rec, seed):
+    if "repo_tests" in cell:
+        return repotests.run(cell, rec)
     {"mass": run_mass, "ctor": run_ctor, "cond": run_cond, "approx": run_approx}[cell["part"]](
         cell, rec, seed)
 
